@@ -525,6 +525,11 @@ def _dedup(I, items):
                 dup = True
                 break
             if r is not False:
+                if not I.ctx.feasible(r):
+                    continue               # the path condition separates the two values
+                if not I.ctx.feasible(z3.Not(r)):
+                    dup = True
+                    break
                 raise Unsupported("set of symbolic values with undetermined equality")
         if not dup:
             out.append(x)
